@@ -6,6 +6,7 @@
 // far (a new registry object with a fresh L2 cache: registryOnDisk.Get consults only the L2 cache before
 // the files) and a raw decode of the .reg segment files into (segment, block, slot) -> id. Both are
 // diffed with the Lean model (correspondence) and checked against a Go map (direct oracle).
+// Several writers on one folder and one lock cache, interleaved call by call: multi.go.
 package main
 
 import (
@@ -87,24 +88,26 @@ func probeIndex(hp, seg, slot, ideal int) int {
 }
 
 type world struct {
-	ctx   context.Context
-	s     *hx.Session
-	p     *hx.Prng
-	dir   string
-	md    int
-	hp    int
-	bsz   int
-	reg   fs.Registry
-	cold  func() fs.Registry
-	ref   map[id]sop.Handle // the specification: a map
-	used  []id              // every id ever mentioned, in order of first use
-	seen  map[id]bool
-	gone  []id // ids removed at least once (may be present again)
-	ser   uint64
-	ver   int32
-	lay   layout
-	displ bool
-	ovf   bool
+	ctx    context.Context
+	s      *hx.Session
+	p      *hx.Prng
+	dir    string
+	md     int
+	hp     int
+	bsz    int
+	reg    fs.Registry
+	newReg func(l2 sop.L2Cache) fs.Registry // a read-write registry object of its own on the same folder
+	l2     sop.L2Cache
+	cold   func() fs.Registry
+	ref    map[id]sop.Handle // the specification: a map
+	used   []id              // every id ever mentioned, in order of first use
+	seen   map[id]bool
+	gone   []id // ids removed at least once (may be present again)
+	ser    uint64
+	ver    int32
+	lay    layout
+	displ  bool
+	ovf    bool
 	// ids that a writer (add / update / remove) was sent to while their record sat behind an empty slot of its
 	// probe sequence: the only situation in which the first-hole write probe misbehaves
 	tainted map[id]bool
@@ -395,25 +398,8 @@ func (w *world) fail(i id, generic, what, detail string) {
 	w.s.Fail(sig, what, detail)
 }
 
-// after: result check, cold lookups of every id used so far, raw layout — each an op line of its own.
-func (w *world) after(name, got, want string, touched []id) {
-	w.lastTouched = touched
-	// state of the touched ids before this op's layout is read (for the histogram): was there a hole before them?
-	for _, i := range touched {
-		if w.holeFootprint(w.lay, i) {
-			w.s.Hit(name + "_of_id_behind_a_hole")
-			w.tainted[i] = true
-		}
-	}
-	lay, err := w.decode(false)
-	if err != nil {
-		w.s.Fail("C21/raw-decode", "segment files do not decode", err.Error())
-	}
-	w.lay = lay
-	if got != want {
-		w.fail(touched[0], "C21/op-result", fmt.Sprintf("%s answered %s where a map answers %s", name, got, want), idsStr(touched))
-	}
-
+// coldLookups: a cold Get (new registry object, fresh L2 cache) of every id used so far, as one op line.
+func (w *world) coldLookups() map[id]sop.Handle {
 	// cold lookups
 	cr := w.cold()
 	us := make([]sop.UUID, len(w.used))
@@ -443,6 +429,29 @@ func (w *world) after(name, got, want string, touched []id) {
 	}
 	w.s.Op("gets "+idsStr(w.used), line)
 	w.s.HitN("cold_lookups", len(w.used))
+	return found
+}
+
+// after: result check, cold lookups of every id used so far, raw layout — each an op line of its own.
+func (w *world) after(name, got, want string, touched []id) {
+	w.lastTouched = touched
+	// state of the touched ids before this op's layout is read (for the histogram): was there a hole before them?
+	for _, i := range touched {
+		if w.holeFootprint(w.lay, i) {
+			w.s.Hit(name + "_of_id_behind_a_hole")
+			w.tainted[i] = true
+		}
+	}
+	lay, err := w.decode(false)
+	if err != nil {
+		w.s.Fail("C21/raw-decode", "segment files do not decode", err.Error())
+	}
+	w.lay = lay
+	if got != want {
+		w.fail(touched[0], "C21/op-result", fmt.Sprintf("%s answered %s where a map answers %s", name, got, want), idsStr(touched))
+	}
+
+	found := w.coldLookups()
 	for _, i := range w.used {
 		exp, present := w.ref[i]
 		h, ok := found[i]
@@ -519,8 +528,9 @@ func runCase(ctx context.Context, s *hx.Session, p *hx.Prng, pr profile, script 
 	reg := fs.NewRegistry(true, pr.md, rt, l2)
 	defer reg.Close()
 	w := &world{ctx: ctx, s: s, p: p, dir: dir, md: pr.md, hp: fs.VerifHandlesPerBlock(), bsz: fs.VerifBlockSize(), reg: reg,
-		ref: map[id]sop.Handle{}, seen: map[id]bool{}, tainted: map[id]bool{}, lay: layout{cells: map[cellPos]id{}}}
+		l2: l2, ref: map[id]sop.Handle{}, seen: map[id]bool{}, tainted: map[id]bool{}, lay: layout{cells: map[cellPos]id{}}}
 	w.cold = func() fs.Registry { return fs.NewRegistry(false, pr.md, rt, cache.NewL2InMemoryCache()) }
+	w.newReg = func(c sop.L2Cache) fs.Registry { return fs.NewRegistry(true, pr.md, rt, c) }
 	s.BeginCase(fmt.Sprintf("md %d", pr.md))
 	s.Hit("case_" + pr.name)
 	s.Hit(fmt.Sprintf("hashmod_%d", pr.md))
@@ -721,8 +731,10 @@ func fullBlock(extra int) func(w *world) {
 func driveC21(o hx.RunOpts) error {
 	s := hx.NewSession(o, "one case = one fresh registry table (hashMod 1, 2, 3 or 250) driven through registryOnDisk.Add / Update / UpdateNoLocks / Remove with ids built from "+
 		"(block, ideal slot, serial) coordinates aimed at a few hot blocks and slots; after every call a cold Get (new registry object, fresh L2 cache) of every id used so far and a raw decode of the "+
-		".reg files, each compared with the Lean model line by line and with a Go map (oracle). distinct = hash of the op lines; non-trivial = at least one record displaced from its ideal slot or "+
-		"a second segment file")
+		".reg files, each compared with the Lean model line by line and with a Go map (oracle). Multi-writer cases: after a short sequential prefix, two or three registry objects on the same "+
+		"folder and lock cache each run one Add / UpdateNoLocks / Update / Remove, parked in front of every DualLock / Unlock / block ReadAt / block WriteAt and resumed one call at a time (one writer parked after "+
+		"k calls while the others run whole, for every k; random schedules); every call is compared with the model, results and cold lookups must be linearizable to a map. distinct = hash of the op lines; "+
+		"non-trivial = at least one record displaced from its ideal slot, a second segment file, or a multi-writer history")
 	old := fs.VerifSetLockRetryTimeout(0)
 	defer fs.VerifSetLockRetryTimeout(old)
 	// the coordinates rely on the big-endian halves returned by UUID.Split
@@ -731,6 +743,14 @@ func driveC21(o hx.RunOpts) error {
 	}
 	p := hx.NewPrng(o.Seed)
 	ctx := context.Background()
+
+	// development aid: C21_PART=mw runs the multi-writer part alone
+	if os.Getenv("C21_PART") == "mw" {
+		if err := driveMW(ctx, s, p.Fork(), o); err != nil {
+			return err
+		}
+		return s.Finish()
+	}
 
 	// directed corpus first
 	if err := runCase(ctx, s, p.Fork(), profile{name: "witness", md: 1}, witnessExact); err != nil {
@@ -749,8 +769,13 @@ func driveC21(o hx.RunOpts) error {
 		}
 	}
 
+	// several writers on one folder and one lock cache
+	if err := driveMW(ctx, s, p.Fork(), o); err != nil {
+		return err
+	}
+
 	mods := []int{1, 2, 3, 250}
-	n := o.N(400, 8000)
+	n := o.N(400, 3000)
 	for k := 0; k < n; k++ {
 		q := p.Fork()
 		md := mods[q.Intn(len(mods))]
@@ -770,7 +795,7 @@ func driveC21(o hx.RunOpts) error {
 		}
 	}
 	// full blocks and deep overflow
-	n = o.N(6, 90)
+	n = o.N(6, 40)
 	for k := 0; k < n; k++ {
 		q := p.Fork()
 		md := mods[q.Intn(3)]
@@ -785,7 +810,7 @@ func driveC21(o hx.RunOpts) error {
 	}
 	s.Rep.CoverageGap = append(s.Rep.CoverageGap,
 		"the 1000-segment limit of findOneFileRegion is modelled (Out.full) but never reached by a generated case",
-		"concurrent writers (the lock protocol of findAndAdd) are out of scope: calls are sequential",
+		"several writers: single-handle calls only; interleavings at the granularity of lock-cache and block IO calls (a block write is atomic, no crash: C22); the race inside setupNewFile (two writers creating the same segment file) and lock expiry (5 min TTL) are not exercised; all writers share one replication tracker without a transaction id",
 		"ids are never the nil UUID; update batches contain at most one absent id (two absent ids of one block in one UpdateNoLocks call are located before either is written)")
 	return s.Finish()
 }
